@@ -1,6 +1,9 @@
 package raft
 
-import "time"
+import (
+	"bytes"
+	"time"
+)
 
 // C15 / C16 / C20: the real Raft.stateLoop run for a scripted sequence of events. The harness's idle hook plays the
 // environment: whenever the loop's select has nothing ready it injects the next event (a task, a client entry, a
@@ -17,6 +20,7 @@ import "time"
 
 type vTimerState struct {
 	pending bool
+	resets  int // how often the timer was (re)started
 	ch      chan time.Time
 }
 
@@ -38,7 +42,16 @@ func vTimerResetT(t *time.Timer, d time.Duration) bool {
 	s := vTimers[t]
 	was := s.pending
 	s.pending = true
+	s.resets++
 	return was
+}
+
+// vResets: how often the safeTimer's underlying timer was restarted.
+func vResets(st *safeTimer) int {
+	if s := vTimers[st.timer]; s != nil {
+		return s.resets
+	}
+	return 0
 }
 
 // vFire: the runtime delivers the tick of a pending timer.
@@ -309,5 +322,64 @@ func VH_C15_stateloop_newterm_timer() {
 	vAssert(step >= 5, "script-completed")
 	vAssert(isClosed(tr.Done()) && tr.Err() == ErrServerClosed, "C15-pending-transfer-gets-server-closed")
 	vAssert(!r.ldr.transfer.timer.active && !r.ldr.transfer.newTermTimer.active, "timers-stopped-at-shutdown")
+	vReach("end")
+}
+
+//verif:check C17,C15 stubs=rt,timers,valuefile,abslog onblock=violation reach=heartbeat,rejected-append,refused-vote,timeout,closed,end desc="real stateLoop as follower: an AppendEntries request from the current leader handed over on rpcCh is answered and restarts the election timer, also when it is rejected (log mismatch); a vote request that is refused (leader known) changes neither term nor vote and does not restart the timer; when the timer then fires the voter becomes candidate" bounds="2 voters + a campaigning outsider; event script: heartbeat, mismatching append, refused vote request with any term, timer fires, shutdown"
+func VH_C17_stateloop_follower_timer() {
+	r := vLoopNode(Follower)
+	r.votedFor, r.termVal.v2 = 2, 2
+	vDiskInit(".term", 1, 2)
+	r.leader = 2
+	mk := func(req *appendReq) *rpc {
+		var w bytes.Buffer
+		if err := req.encode(&w); err != nil {
+			panic(err)
+		}
+		c, _ := vMkConn(w.Bytes())
+		return &rpc{req: &appendReq{}, conn: c, done: make(chan struct{})}
+	}
+	hb := mk(&appendReq{req: req{1, 2}, prevLogIndex: 1, prevLogTerm: 1, ldrCommitIndex: 1})
+	probe := mk(&appendReq{req: req{1, 2}, prevLogIndex: 5, prevLogTerm: 1, ldrCommitIndex: 1})
+	vote := &voteReq{req: req{vU64("vote.term"), 3}, lastLogIndex: vU64("vote.lli"), lastLogTerm: vU64("vote.llt")}
+	cv, _ := vMkConn(nil)
+	xv := &rpc{req: vote, conn: cv, done: make(chan struct{})}
+	step, n0 := 0, 0
+	vSetIdleHook(func() {
+		vDrainFSM(r)
+		switch step {
+		case 0:
+			n0 = vResets(r.timer)
+			vOffer(r.rpcCh, hb)
+		case 1:
+			vAssert(isClosed(hb.done) && hb.readErr == nil && hb.resp.getResult() == success, "heartbeat-answered")
+			vAssert(vResets(r.timer) == n0+1, "F1-heartbeat-from-leader-restarts-election-timer")
+			vReach("heartbeat")
+			vOffer(r.rpcCh, probe)
+		case 2:
+			vAssert(isClosed(probe.done) && probe.resp.getResult() == prevEntryNotFound, "probe-rejected")
+			vAssert(vResets(r.timer) == n0+2, "F1-rejected-append-from-leader-restarts-election-timer")
+			vReach("rejected-append")
+			vOffer(r.rpcCh, xv)
+		case 3:
+			vAssert(isClosed(xv.done) && xv.resp.getResult() == leaderKnown, "F2-outsider-vote-refused-while-leader-known")
+			vAssert(r.term == 1 && r.votedFor == 2, "F2-refused-vote-changes-neither-term-nor-vote")
+			vAssert(vResets(r.timer) == n0+2, "F2-refused-vote-does-not-restart-election-timer")
+			vReach("refused-vote")
+			vAssert(vFire(r.timer), "election-timer-armed")
+		case 4:
+			vAssert(r.state == Candidate && r.term == 2, "F3-voter-campaigns-after-timeout")
+			vReach("timeout")
+			r.doClose(ErrServerClosed)
+		default:
+			if !r.isClosed() {
+				r.doClose(ErrServerClosed)
+			}
+		}
+		step++
+	})
+	r.stateLoop()
+	vReach("closed")
+	vAssert(step >= 5, "script-completed")
 	vReach("end")
 }
